@@ -22,6 +22,7 @@ func checkC06(c *Ctx) {
 	r.Rule("R07.3", "(shared with C07) ascending key order: the member list is sorted by a stable sort whose comparator reads Key() only, orders ascending, and is a consistent three-way order also for nil placeholders")
 	r.Rule("R07.4", "(shared with C07) the list given is sorted, then de-duplicated, and the loop prints the result")
 	r.Rule("R05.10", "(shared with C05) the message is handed on as given from the verbs to the encoder's message field")
+	r.Rule("R02.3", "(shared with C02) what is handed to the destination is the finished record: the payload is the formatting buffer's Bytes() taken right after End(true); nothing cuts, truncates or re-slices the record after the colours were closed")
 	r.Rule("R06.4", "no pooled encoder field is read stale in colored mode (engine E10): remaining lines, colours and the end-of-line flag of a previous record cannot surface")
 	r.Assume("messages contain no escape bytes and no HTML-like markup (the property's domain for hygiene/layout); the markup translator of the dependency is treated as text")
 	mode := Mode{false, false}
@@ -40,6 +41,7 @@ func checkC06(c *Ctx) {
 		c06Layout(c, p, m, mr)
 		padUnbounded(c, p)
 		tagWidthSetter(c, p)
+		c02Newline(c, p, m)
 		c07Sort(c, p, m)
 		messageIdentity(c, p, "R05.10")
 		c08Stores(c, p, m)
